@@ -105,31 +105,44 @@ def run(ctx):
                               "the convenience put forwards its key and value unchanged", f.where(bb))
 
     # ---- R07.5 the caller's test can be stale when the command runs: the worker re-tests before it inserts ---------
+    # put handlers = the outermost status-returning functions on whose paths (helpers inlined) a store insert happens
+    import c05
     n_h = 0
-    for name, h in F.fns.items():
-        if h.kind == "Closure":
+    status_fns = {n for n, g in F.fns.items() if g.kind != "Closure" and g.rec.get("ret", "").endswith("CommandStatus")}
+    hstop = lambda n: n in S.insert_fns or n in preds
+    hc = {}
+    for n in sorted(status_fns):
+        h = F.fns[n]
+        if not any(t["res"] == "item" and t.get("rlocal") for b, t in h.calls()):
             continue
-        ins = [(b, t) for b, t in h.calls() if t.get("rpath") in S.insert_fns]
-        if not ins or not h.rec.get("ret", "").endswith("CommandStatus"):
-            continue
+        ps = ipaths(F, h, stop=hstop, depth=2)
+        if any(p.calls(S.insert_fns) for p in ps):
+            hc[n] = (h, ps)
+    outer = [n for n in hc if not any(t.get("rpath") == n for m in hc if m != n for b, t in hc[m][0].calls())]
+    for name in outer:
+        h, ps = hc[name]
         n_h += 1
         ctx.touch(h)
-        for b, t in ins:
-            g = F.fns[t["rpath"]]
-            import c05
-            kp, ip = c05.insert_params(F, g)
-            key = h.op_origin(t["args"][kp - 1]) if kp else None
-            edges = S.absence_edges(h, key, readable_too=True) if key is not None else []
-            ok = bool(edges) and b not in h.reach([0], avoid_edges=edges)
-            ctx.check(ok, "R07.5", "%s|worker-retests-before-insert" % name,
-                      "on the worker a put inserts only after the presence / readability predicate reported its key absent at execution time (an earlier queued put of the same key may have been applied since the caller looked)",
-                      h.where(b), "key=%s" % (fmt(key) if key is not None else "?"))
-            # and the readable case is answered KeyAlreadyExists
-            for bb, expr, tt, ft in bool_branches(h):
-                if expr[0] == "call" and (expr[1] in S.presence_fns or expr[1] in S.readable_fns or expr[1] in S.filtered_presence_fns):
-                    vals = [path_return(h, p) for p in enum_paths(h) if (bb, tt) in zip(p, p[1:])]
-                    okv = bool(vals) and all(r[0] == "agg" and r[2] == "Rejected" and mentions(r, lambda s: s[0] == "agg" and s[2] == "KeyAlreadyExists") for r in vals)
-                    ctx.check(okv, "R07.5", "%s|present-is-rejected" % name, "a key found present at execution time is answered Rejected(KeyAlreadyExists)", h.where(bb))
+        bad, badp = [], []
+        n_present = 0
+        for p in ps:
+            for e in p.calls(S.insert_fns):
+                kp, ip = c05.insert_params(F, F.fns[e.callee])
+                key = e.args[kp - 1] if kp else None
+                tested = [a for a in p.atoms if a[0] == "bool" and a[1][0] == "call" and a[1][1] in preds and a[4] < e.seq
+                          and key is not None and same_value(a[1][2][pred_key[a[1][1]] - 1], key)]
+                if not tested or any(a[2] for a in tested):
+                    bad.append("insert of %s on a path that did not find the key absent at execution time (%s)" % (fmt(key)[:40] if key is not None else "?", p.show()))
+            pres = [a for a in p.atoms if a[0] == "bool" and a[1][0] == "call" and a[1][1] in preds and a[2]]
+            if pres:
+                n_present += 1
+                r = p.ret
+                if not (p.ret_variant() == ("Rejected",) and mentions(r, lambda s_: s_[0] == "agg" and s_[2] == "KeyAlreadyExists")) or p.calls(S.insert_fns):
+                    badp.append("present key answered %s" % fmt(r)[:60])
+        ctx.check(not bad, "R07.5", "%s|worker-retests-before-insert" % name,
+                  "on the worker a put inserts only after the presence / readability predicate reported its key absent at execution time (an earlier queued put of the same key may have been applied since the caller looked)",
+                  h.where(), "; ".join(bad[:2]))
+        ctx.check(not badp and n_present >= 1, "R07.5", "%s|present-is-rejected" % name, "a key found present at execution time is answered Rejected(KeyAlreadyExists)", h.where(), "; ".join(badp[:2]))
     ctx.floor("R07.5", "put handlers on the worker", n_h, 1)
 
     # ---- R07.4 the existence test must wait for the shard: try_* lookups answer "absent" while a writer holds it
